@@ -570,7 +570,7 @@ def catalogue_ops():
     from .. import macrofuzz
     out = []
     for k, ent in enumerate(CATALOGUE):
-        name, text, args, is_env = ent
+        name, text, args, is_env = ent[:4]
         has_dimen = bool(re.search(r':\s*(dimen|length|dimension|glue|skip)', args or '', re.I))
         for sp in (DIMEN_SPELLINGS if has_dimen else ['{2pt}']):
             t = macrofuzz.synth(name, args, is_env, k, dimen=sp)
